@@ -30,6 +30,9 @@ def load():
     import vyxal.structure
     import vyxal.transpile
 
+    import warnings
+
+    warnings.filterwarnings("ignore")  # sympy installs its own "always" filter for its deprecation chatter
     _loaded.update(
         vyxal=vyxal, context=vyxal.context, elements=vyxal.elements, helpers=vyxal.helpers,
         LazyList=vyxal.LazyList, lexer=vyxal.lexer, main=vyxal.main, parse=vyxal.parse,
